@@ -3,7 +3,7 @@ T = lambda q, t: {"quick": q, "thorough": t}
 SPEC = dict(
     level="exploration",
     exhaustive=True,
-    technique="reference acceptance predicate + output scans on ValidateQuery / ValidateLimit; exhaustive over all 0-2 symbol strings of a "
+    technique="reference acceptance predicate + output scans on ValidateQuery / ValidateLimit; exhaustive over all 0-2 symbol strings of a ; thorough adds a coverage-guided go test -fuzz workload (FuzzValidateQuery) with the same oracles"
               "126-symbol hostile alphabet and over the limit integers, random beyond; CLI echo spot check",
     level_text="ValidateQuery is a pure function of a byte string and ValidateLimit of an int, so both are decided in-process against a "
                "predicate written from the statement. Every string of 0, 1 and 2 symbols over the hostile alphabet (every Cc, every "
@@ -16,7 +16,7 @@ SPEC = dict(
     engines=[
         dict(name="validate", shards=T(16, 16), timeout=T(300, 3000)),
         dict(name="validate-cli", shards=T(16, 16), timeout=T(300, 1500), needs_wtf=True),
-    ],
+             dict(name="gofuzz-FuzzValidateQuery", kind="gofuzz", target="FuzzValidateQuery", fuzztime=T(0, "90s"))],
     rule="case = one byte string through ValidateQuery (acceptance compared with the reference predicate: <=1000 bytes, none of < > | & ; $, "
          "a non-whitespace character left after removing unicode.IsControl runes; every accepted output scanned for control characters, "
          "leading/trailing/repeated/non-U+0020 whitespace, metacharacters, rune count <= input's; ValidateQuery(out) == (out, nil)), or "
